@@ -43,8 +43,11 @@ pub fn gen_case(rng: &mut Rng, quick: bool) -> Case {
     let msgs = (0..n)
         .map(|_| {
             let len = if rng.chance(1, 10) { *rng.pick(&BIG) } else if rng.chance(1, 3) { rng.usize(300) } else { *rng.pick(&SIZES) };
-            let mode = match rng.below(10) {
-                0 | 1 | 2 => ReadMode::Eager,
+            let mode = match rng.below(11) {
+                // (servers) a reader that outlives its handler and starts reading only after the
+                // peer has gone: what was delivered completely is read completely
+                10 if role.is_server() => ReadMode::DetachedLate,
+                0 | 1 | 2 | 10 => ReadMode::Eager,
                 3 | 4 => ReadMode::Chunks,
                 5 | 6 => ReadMode::Lazy,
                 7 | 8 => ReadMode::LateAll,
@@ -127,7 +130,7 @@ pub async fn run_case(case: &Case) -> Outc {
         o.writes += 1;
         c.settle().await;
         for _ in 0..rng.usize(3) {
-            let gates: Vec<(GateKind, u32)> = app.pending_gates().into_iter().filter(|g| g.0 == GateKind::PubRead).collect();
+            let gates: Vec<(GateKind, u32)> = app.pending_gates().into_iter().filter(|g| g.0 == GateKind::PubRead && g.1 % 1000 != 999).collect();
             if gates.is_empty() {
                 break;
             }
@@ -137,7 +140,7 @@ pub async fn run_case(case: &Case) -> Outc {
     }
     // let the lazy readers finish
     for _ in 0..200_000 {
-        let gates: Vec<(GateKind, u32)> = app.pending_gates().into_iter().filter(|g| g.0 == GateKind::PubRead).collect();
+        let gates: Vec<(GateKind, u32)> = app.pending_gates().into_iter().filter(|g| g.0 == GateKind::PubRead && g.1 % 1000 != 999).collect();
         if gates.is_empty() {
             break;
         }
@@ -145,6 +148,19 @@ pub async fn run_case(case: &Case) -> Outc {
         c.settle().await;
     }
     c.settle().await;
+    // what the endpoint did with the stream is judged now; readers that start late do so after the
+    // peer has gone away
+    let wire = app.wire();
+    let stops_while_connected = app.stops();
+    let late: Vec<(GateKind, u32)> = app.pending_gates().into_iter().filter(|g| g.0 == GateKind::PubRead && g.1 % 1000 == 999).collect();
+    if !late.is_empty() {
+        c.peer.close();
+        c.settle().await;
+        for g in late {
+            app.open_gate(g, Outcome::Ok);
+        }
+        c.settle().await;
+    }
     // ------------------------------------------------------------------ oracle
     let log = app.snapshot();
     let what = format!("{case:?}");
@@ -175,10 +191,9 @@ pub async fn run_case(case: &Case) -> Outc {
         }
     }
     // nothing leaked into the following packets: the probe was answered, nothing ended the connection
-    let wire = app.wire();
     let probe_ok = if case.role.is_server() { wire.iter().any(|(_, p)| matches!(p, R::PingResp)) } else { wire.iter().any(|(_, p)| matches!(p, R::PubAck { pid: 999, .. })) };
-    if !probe_ok || !app.stops().is_empty() {
-        o.violations.push(("packet following the publishes was not processed (payload bytes leaked into the next packet, or the connection ended)".into(), format!("stops {:?}, wrote {:?} — {what}", app.stops(), wire.iter().map(|(_, p)| crate::map::brief(p)).collect::<Vec<_>>())));
+    if !probe_ok || !stops_while_connected.is_empty() {
+        o.violations.push(("packet following the publishes was not processed (payload bytes leaked into the next packet, or the connection ended)".into(), format!("stops {:?}, wrote {:?} — {what}", stops_while_connected, wire.iter().map(|(_, p)| crate::map::brief(p)).collect::<Vec<_>>())));
     }
     o.sig = app.trace_signature() ^ pool::hash_str(&format!("{:?}{}", case.msgs, case.frag));
     o.log = app.render(40);
